@@ -377,6 +377,10 @@ func c14ExprReturns(c *Ctx, te, f *ssa.Function, depth int, visited map[*ssa.Fun
 			if _, isAlloc := peel(mi.X).(*ssa.Alloc); isAlloc {
 				ok = true
 			}
+			// a constructor function of the library: every return of it is a node allocated there (rules_r8.go)
+			if cc, isCall := peel(mi.X).(*ssa.Call); isCall && nodeCtor(c, calleeFunc(&cc.Call)) != nil {
+				ok = true
+			}
 		}
 		// a helper with a concrete pointer result returns the allocation itself
 		if _, isAlloc := peel(rv[0]).(*ssa.Alloc); isAlloc && f != te {
